@@ -39,21 +39,24 @@ SPEC = {
     ],
     "assumptions": [
         "maps have fewer than 2^32 darts (no u32 wrap-around is modelled)",
-        "three_sew/three_unsew read the committed state through the non-transactional orbit(); the model runs the same "
-        "BFS inside the transaction (equal for single-operation transactions; composed transactions are C08's subject)",
+        "three_sew/three_unsew walk the two faces through the transaction (orbit_transac, /repo f79acf8 — the repair of D4), as the "
+        "model always did; the stream `composed transactions` runs 3-sews after 1-links of the same faces inside one tx block",
     ],
     "rule": "exhaustive: every WF 3-map with n<=N darts (b1 partial injection, b2 and b3 fixed-point-free partial involutions, "
             "removed sets) x every link/unlink/sew/unsew of dimension 1,2,3 x every in-use argument tuple; the glued-faces family "
             "(all ways to build <=2 (quick) / <=3 (thorough, sampled) faces of <=4 sides, closed and open) x every call, fresh and "
             "after random pre-operations; random valid-argument histories on face families and on pairs of polyhedra "
-            "(cube, tetrahedron, prism, pyramid) glued by a 3-sew; malformed arguments (correspondence only).",
+            "(cube, tetrahedron, prism, pyramid) glued by a 3-sew; composed transactions (two faces built by 1-links out of free darts, "
+            "3-linked/3-sewn and edited again inside one tx block vs the same calls one by one: all-or-nothing, same final state); "
+            "malformed arguments (correspondence only).",
     "not_proved": [
         "no clause of the statement is left `_partial`: WF 4 (C02_step/history_preserves_WF), Mirror (open and closed faces, every "
         "op) and the refusal (closed/closed of different lengths, closed/open, open/open with different numbers of darts ahead or "
         "behind) are proved on the model of the code AFTER the D1/D1b fix: commits; before them Mirror and the refusal were false "
         "(known finding D1, kept for the record)",
         "the theorems are about the sequential semantics of single calls and histories; concurrency is C07, composed transactions "
-        "C08 (three_sew/three_unsew use the non-transactional orbit(), D4: irrelevant for the beta part proved here)",
+        "C08 (D4 — three_sew/three_unsew used the non-transactional orbit() — is repaired in /repo; it never affected the beta part "
+        "proved here: the face walks only feed the attribute updates)",
         "model/implementation agreement is established by the differential run of this check, not by proof",
     ],
 }
@@ -81,6 +84,8 @@ def classify(op, res, snap_before):
 
 def oracle(case, li):
     """walk the transcript: remember the last snap, the last editing call and its result"""
+    if case.oracle == "c02tx":
+        return oracle_tx(case, li)
     if case.oracle != "c02":
         return None
     last_snap, last_op, last_res, snap_at_op = None, None, None, None
@@ -211,6 +216,66 @@ def polyhedra_histories(count, rng, maxlen=14):
     return cases
 
 
+def composed_tx(count, rng):
+    """two faces built by 1-links out of free darts and glued by a 3-link / 3-sew (then possibly edited again) inside ONE
+    transaction; the same calls run first one by one.  Layout: init, snap, ops…, snap, wf, init, snap, tx, ops…, endtx, snap, wf.
+    Oracle: wf after both runs; the block is all-or-nothing; when every separate call answered ok the block answers ok and
+    reaches the same state (before /repo f79acf8 three_sew walked the committed faces: D4)."""
+    cases = []
+    for k in range(count):
+        a = rng.randint(1, 4)
+        b = a if rng.random() < 0.7 else rng.randint(1, 4)
+        ca = rng.random() < 0.7
+        cb = ca if rng.random() < 0.8 else not ca
+        n = a + b + rng.randint(0, 2)
+        mask = rng.choice([31, 15, 5, 0, 1, 4])
+        init = [f"new 3 {n} {mask}"] + gens.value_lines(rng, n, mask, dim=3, pv=rng.choice([1.0, 1.0, 0.6]),
+                                                         pa=rng.choice([1.0, 0.5, 0.0]))
+        left, right = list(range(1, a + 1)), list(range(a + 1, a + b + 1))
+        links = [f"link 1 {x} {y}" for face, closed in ((left, ca), (right, cb))
+                 for x, y in list(zip(face, face[1:])) + ([(face[-1], face[0])] if closed else [])]
+        if rng.random() < 0.5:
+            rng.shuffle(links)
+        ld, rd = rng.choice(left), rng.choice(right)
+        ops = links + [f"{rng.choice(['sew', 'sew', 'link'])} 3 {ld} {rd}"]
+        darts = list(range(1, n + 1))
+        for _ in range(rng.choice([0, 0, 1, 2, 3])):
+            x, y = rng.choice(darts), rng.choice(darts)
+            ops.append(rng.choice([f"unsew 3 {x}", f"unlink 3 {x}", f"unlink 1 {x}", f"unsew 1 {x}", f"link 1 {x} {y}",
+                                   f"sew 1 {x} {y}", f"sew 3 {rng.choice(left)} {rng.choice(right)}"]
+                                  + ([f"sew 2 {x} {y}", f"link 2 {x} {y}"] if x != y else [])))
+        lines = init + ["snap"] + ops + ["snap", "wf"] + init + ["snap", "tx"] + ops + ["endtx", "snap", "wf"]
+        cases.append(Case(f"tx{k}", lines, oracle="c02tx", meta={"sig": "composed-tx", "k": len(ops), "ninit": len(init)}))
+    return cases
+
+
+def oracle_tx(case, li):
+    if any(x.startswith("<missing") for x in li):
+        return "[other] driver died"
+    k, ni = case.meta["k"], case.meta["ninit"]
+    # indices: init[0:ni], snap ni, ops ni+1..ni+k, snap ni+k+1, wf ni+k+2, init, snap 2ni+k+3, tx, ops, endtx, snap, wf
+    s0, seq, s1, wf1 = li[ni], li[ni + 1:ni + 1 + k], li[ni + k + 1], li[ni + k + 2]
+    base = 2 * ni + k + 3
+    t0, endtx, t1, wf2 = li[base], li[base + k + 2], li[base + k + 3], li[base + k + 4]
+    if wf1 != "wf true true true":
+        return f"[other] integrity lost by the separate calls {case.lines[ni + 1:ni + 1 + k]} -> {seq}: {wf1}"
+    if wf2 != "wf true true true":
+        return f"[other] integrity lost by the transaction block {case.lines[ni + 1:ni + 1 + k]} -> {endtx}: {wf2}"
+    if s0 != t0:
+        return "[other] the two initial states differ (generator bug)"
+    if endtx.startswith("tx ok"):
+        if not all(x.startswith("ok") for x in seq):
+            return f"[other] the block committed although a separate call failed: {seq} vs {endtx}"
+        if s1 != t1:
+            return f"[other] block and sequence of the same successful calls reach different states: {s1} vs {t1}"
+    else:
+        if all(x.startswith("ok") for x in seq):
+            return f"[other] every separate call succeeded but the block answered {endtx}"
+        if t1 != t0:
+            return f"[other] a failed block changed the map: {t0} vs {t1}"
+    return None
+
+
 def malformed(count, rng, mask=15):
     """null / removed / out-of-range / equal arguments: correspondence only"""
     cases = []
@@ -244,6 +309,7 @@ def run(tier, seed):
         parts.append(("glued faces 3 faces (sample)", hv.campaign(faces_family(rng, 3, 0.1, 30, 2, mask=15), oracle)))
         parts.append(("random histories", hv.campaign(random_histories(1500, rng), oracle)))
         parts.append(("polyhedra histories", hv.campaign(polyhedra_histories(600, rng), oracle)))
+        parts.append(("composed transactions (faces built and 3-sewn in one block)", hv.campaign(composed_tx(1500, rng), oracle)))
         parts.append(("malformed", hv.campaign(malformed(1500, rng), None)))
     else:
         r1 = hv.campaign(exhaustive_wf3(3, rng), oracle)
@@ -258,6 +324,7 @@ def run(tier, seed):
         parts.append(("glued faces 3 faces (sample)", hv.campaign(faces_family(rng, 3, 0.5, 80, 3, mask=15), oracle)))
         parts.append(("random histories", hv.campaign(random_histories(15000, rng, maxlen=50), oracle)))
         parts.append(("polyhedra histories", hv.campaign(polyhedra_histories(5000, rng, maxlen=25), oracle)))
+        parts.append(("composed transactions (faces built and 3-sewn in one block)", hv.campaign(composed_tx(15000, rng), oracle)))
         parts.append(("malformed", hv.campaign(malformed(15000, rng), None)))
     return hv.merge_results(parts)
 
